@@ -65,7 +65,16 @@ pub fn run_scenario(sc: &Scenario, keep_log: bool) -> Outcome {
         Ok(Err(e)) => {
             out.rejected = Some(short(&e.to_string()));
             out.hash = mix(1, crate::rng::fnv(&short(&e.to_string())));
-            if classify_err(&e.to_string()) == ErrClass::Panic {
+            if is_overflow_panic(&e.to_string()) {
+                out.violation = Some(Violation {
+                    property: sc.property.clone(),
+                    oracle: "no_arithmetic_overflow".into(),
+                    task: 0,
+                    step: 0,
+                    detail: format!("building the world: internal arithmetic overflow: {}", short(&e.to_string())),
+                    signature: "overflow:build".into(),
+                });
+            } else if classify_err(&e.to_string()) == ErrClass::Panic {
                 out.violation = Some(Violation {
                     property: sc.property.clone(),
                     oracle: "no_internal_panic".into(),
